@@ -4,7 +4,7 @@ BASE_NOTE = ("Trusted: Coq 8.16.1 kernel (vm_compute for witnesses/examples only
              "the correspondence harness (generators, exact-rational canonicalisation, observation mapping); CPython 3.12/numpy "
              "float64 semantics on the exact (dyadic) input families. The theorems are about the Gallina model; the tie to /repo/src "
              "is the correspondence run on every check (sampled, not proved). ")
-SOURCE_COMMITS = ["bc49a1c", "e3a7f92", "9ed7728", "007ee91", "c29e4c1", "17a47e5", "867807e", "949de5f", "5cc174a", "d64e197", "df761a4", "5d29398", "7a3c11a", "0a21c22", "aeeccf6", "59481a8", "b5aca95", "679700e", "ca2559c", "e1a34e7", "3b48309", "af04624", "d811d2c", "621ca2a", "dac1774", "93d477c", "102736c", "02123fe", "911bb12", "3ef9ffd", "15e9860", "9b7c6c3", "10af766", "15aa013", "cad1090", "07de623", "4bf9c77", "9c0254b", "b710d24", "8e8da8b", "9e7b056", "a4a8ff4", "df1fc35", "225eedd", "002f13e", "2da9632", "35ceb05", "6a01a15", "f3711c2", "2b4f29d", "986482c", "3e97820"]   # "fix:" commits only (no guarded hooks exist)
+SOURCE_COMMITS = ["bc49a1c", "e3a7f92", "9ed7728", "007ee91", "c29e4c1", "17a47e5", "867807e", "949de5f", "5cc174a", "d64e197", "df761a4", "5d29398", "7a3c11a", "0a21c22", "aeeccf6", "59481a8", "b5aca95", "679700e", "ca2559c", "e1a34e7", "3b48309", "af04624", "d811d2c", "621ca2a", "dac1774", "93d477c", "102736c", "02123fe", "911bb12", "3ef9ffd", "15e9860", "9b7c6c3", "10af766", "15aa013", "cad1090", "07de623", "4bf9c77", "9c0254b", "b710d24", "8e8da8b", "9e7b056", "a4a8ff4", "df1fc35", "225eedd", "002f13e", "2da9632", "35ceb05", "6a01a15", "f3711c2", "2b4f29d", "986482c", "3e97820", "86d8c17"]   # "fix:" commits only (no guarded hooks exist)
 NOTES = ("Every check: (1) rebuilds the Coq development incrementally and re-checks coq/Props/<id>.v (grep gate for Admitted/Axiom/...); "
          "(2) runs physt from /repo/src and the extracted model on the same seeded cases; (3) applies the extracted check_<id> to the "
          "implementation's observation. VIOLATION lines carry a replay file; 'no-failing-input-found' is appended when only the "
@@ -100,7 +100,7 @@ CLAIMED = {
    note=BASE_NOTE + "Modelled, not verified: json.dumps/json.loads text layer (float repr, NaN/Infinity tokens, escapes), numpy "
         "tolist/asarray, packaging.version parsing (its parsed components are the model's input). includes_right_edge / align of "
         "binnings and Statistics are not part of the documents (not named by the property; observed but not judged). "
-        "Finding F27 (float128 cannot be serialised) is listed in known_findings.json."),
+        "float128 contents are written as decimal strings (repair of the former finding F27); the harness reads them back with np.longdouble, the generated float128 values are binary64-exact, genuinely extended-precision values are exercised by physt's own round trip only."),
  "C15": dict(
    technique="Coq proofs that the inverse formulas determine the coordinates (norm, uniqueness), reuse of the proved find-bin and marginal specifications + extracted toleranced predicate applied to every coordinate and every entry path of physt",
    text=("Theorems: coordinates (r >= 0, unit direction) that reproduce a point satisfy r^2 = x^2+y^2(+z^2) and are unique "
